@@ -283,7 +283,7 @@ Lemma MI_GetMobileIdentity_total buf : (9 <= length buf)%nat -> is_total (MI_Get
 Proof.
   intro H. unfold MI_GetMobileIdentity.
   destruct (MI_GetSUCI_succeeds buf H) as (su & ES).
-  destruct (MI_Get5GTMSI_succeeds buf ltac:(lia)) as (tm & ET).
+  pose proof (MI_Get5GSTMSI_total buf ltac:(lia)) as HS.
   destruct (MI_GetIMEI_succeeds buf ltac:(lia)) as (im & EI).
   destruct (MI_GetIMEISV_succeeds buf ltac:(lia)) as (iv & EV).
   pose proof (MI_Get5GGUTI_total buf ltac:(lia)) as HG.
@@ -294,7 +294,7 @@ Proof.
   - rewrite ES. exact I.
   - destruct (MI_Get5GGUTI (b0 :: t)); try contradiction; exact I.
   - rewrite EI. exact I.
-  - rewrite ET. exact I.
+  - destruct (MI_Get5GSTMSI (b0 :: t)); try contradiction; exact I.
   - rewrite EV. exact I.
 Qed.
 
@@ -337,3 +337,63 @@ Lemma MI_GetIMEI_refuted : forall k, (k < 1)%nat -> exists buf, length buf = k /
 Proof. intros k H. exists []. split; [cbn; lia|reflexivity]. Qed.
 Lemma MI_GetIMEISV_refuted : forall k, (k < 1)%nat -> exists buf, length buf = k /\ MI_GetIMEISV buf = Panic.
 Proof. intros k H. exists []. split; [cbn; lia|reflexivity]. Qed.
+
+(* ---- PlmnIDToNas: documented domain (no error result): at least 3 / 2 characters ---- *)
+Lemma atoi_digit_or_succeeds s i dflt : (i < length s)%nat -> bytes_ok s -> succeeds (atoi_digit_or s i dflt).
+Proof.
+  intros Hi Hok. destruct (nth_error s i) as [c|] eqn:E; [|apply nth_error_None in E; lia].
+  assert (Hc : c < 256).
+  { unfold bytes_ok in Hok. rewrite Forall_forall in Hok. apply Hok. eapply nth_error_In; eassumption. }
+  rewrite (atoi_digit_or_spec s i dflt c E Hc). eexists; reflexivity.
+Qed.
+
+Lemma PlmnIDToNas_total mcc mnc :
+  bytes_ok mcc -> bytes_ok mnc -> (3 <= length mcc)%nat -> (2 <= length mnc)%nat -> is_total (PlmnIDToNas mcc mnc).
+Proof.
+  intros H1 H2 L1 L2. unfold PlmnIDToNas.
+  destruct (atoi_digit_or_succeeds mcc 0 0%Z ltac:(lia) H1) as (a & ->). cbn [obind].
+  destruct (atoi_digit_or_succeeds mcc 1 0%Z ltac:(lia) H1) as (b & ->). cbn [obind].
+  destruct (atoi_digit_or_succeeds mcc 2 0%Z ltac:(lia) H1) as (c & ->). cbn [obind].
+  destruct (atoi_digit_or_succeeds mnc 0 0%Z ltac:(lia) H2) as (d & ->). cbn [obind].
+  destruct (atoi_digit_or_succeeds mnc 1 0%Z ltac:(lia) H2) as (e & ->). cbn [obind].
+  destruct (Nat.eqb_spec (length mnc) 3) as [L3|L3].
+  - destruct (atoi_digit_or_succeeds mnc 2 15%Z ltac:(lia) H2) as (f & ->). exact I.
+  - exact I.
+Qed.
+
+(* ---- exactly which octet strings SuciToStringWithError / PeiToStringWithError / GutiToStringWithError reject ---- *)
+Lemma SuciToStringWithError_err_iff buf :
+  SuciToStringWithError buf = Err <->
+  match buf with
+  | [] => True
+  | b0 :: _ => if N.shiftr (N.land b0 240) 4 =? 1 then (length buf < 2)%nat else (length buf < 9)%nat
+  end.
+Proof.
+  destruct buf as [|b0 t0]; [split; [tauto|reflexivity]|].
+  unfold SuciToStringWithError.
+  destruct (Nat.ltb_spec (length (b0 :: t0)) 1) as [L1|L1]; [cbn [length] in L1; lia|].
+  cbn [idx nth_error obind].
+  destruct (N.shiftr (N.land b0 240) 4 =? 1).
+  - unfold conv_naiToString. destruct (Nat.ltb_spec (length (b0 :: t0)) 2) as [L|L].
+    + split; [intros _; exact L|reflexivity].
+    + rewrite slice_from_ok by lia. cbn [obind]. split; [discriminate|lia].
+  - destruct (Nat.ltb_spec (length (b0 :: t0)) 9) as [L|L9].
+    + split; [intros _; exact L|reflexivity].
+    + split; [|lia]. intro E. exfalso.
+      destruct t0 as [|b1 [|b2 [|b3 [|b4 [|b5 [|b6 [|b7 [|b8 t]]]]]]]]; cbn [length] in L9; try lia.
+      cbn [idx nth_error obind] in E.
+      destruct (mcc_text_succeeds b1 b2) as (mcc & Em). rewrite Em in E. cbn [obind] in E.
+      destruct (mnc_text_succeeds b2 b3) as (mnc & En). rewrite En in E. cbn [obind] in E.
+      destruct (routing_ind_succeeds b4 b5) as (ri & Er). rewrite Er in E. cbn [obind] in E.
+      destruct (scheme_output_succeeds (Sprintf_x b6) (b0 :: b1 :: b2 :: b3 :: b4 :: b5 :: b6 :: b7 :: b8 :: t)) as (so & Es);
+        [cbn [length]; lia|]. rewrite Es in E. discriminate.
+Qed.
+
+Lemma PeiToStringWithError_err_iff buf : PeiToStringWithError buf = Err <-> buf = [].
+Proof.
+  destruct buf as [|b0 t]; [split; reflexivity|]. split; [|discriminate].
+  unfold PeiToStringWithError.
+  destruct (Nat.ltb_spec (length (b0 :: t)) 1) as [L1|L1]; [cbn [length] in L1; lia|].
+  cbn [idx nth_error obind].
+  destruct (pei_digits_succeeds (b0 :: t)) as (d & ->); [cbn [length]; lia|]. discriminate.
+Qed.
